@@ -129,8 +129,12 @@ def run_impl(steps):
             r = "error"
         except Exception:
             r = "error"
-        obs.append({"r": r, "heap": canon_heap(w.snapshot())})
+        obs.append({"r": RAISED if r in ("refused", "error") else r, "heap": canon_heap(w.snapshot())})
     return obs
+
+
+# which exception a failing operation raises is not part of any property (see common.comparable)
+RAISED = "raised"
 
 
 def model_steps(steps):
@@ -150,4 +154,4 @@ def run_model(drv, steps):
     r = drv.ask({"op": "forest", "steps": model_steps(steps)})
     if "out" not in r:
         return [r]
-    return [{"r": o["r"], "heap": canon_heap(o["heap"])} for o in r["out"]]
+    return [{"r": RAISED if o["r"] in ("refused", "error") else o["r"], "heap": canon_heap(o["heap"])} for o in r["out"]]
